@@ -148,7 +148,7 @@ struct job {
     uint64_t seed; const struct op *S; int ns; uint64_t *out;
     uint64_t hseed; const struct op *H; int nh; int terminate_between;
     pthread_barrier_t *bar;
-    int reseeds;          /* extra seedings (no draws) between the history and the seeding that counts */
+    uint64_t reseeds;     /* extra seedings (no draws) between the history and the seeding that counts */
 };
 static void *job_body(void *vp)
 {
@@ -161,7 +161,7 @@ static void *job_body(void *vp)
         for (int k = 0; k < j->nh; k++) (void)run_op(&j->H[k]);
         if (j->terminate_between) cmb_random_terminate();
     }
-    for (int k = 0; k < j->reseeds; k++) cmb_random_initialize(j->hseed + 7u * (uint64_t)k + 1u);
+    for (uint64_t k = 0; k < j->reseeds; k++) cmb_random_initialize(j->hseed + 7u * k + 1u);
     cmb_random_initialize(j->seed);
     for (int k = 0; k < j->ns; k++) j->out[k] = run_op(&j->S[k]);
     for (int k = 0; k < NVEC; k++) if (tl_alias[k]) { cmb_random_alias_destroy(tl_alias[k]); tl_alias[k] = NULL; }
@@ -252,7 +252,10 @@ void vr_case(uint64_t seed, uint64_t idx, int profile)
     uint64_t *oa = calloc((size_t)ns, 8), *ob = calloc((size_t)ns, 8);
     struct job ja = { sd, S, ns, oa, 0, NULL, 0, 0, NULL };
     struct job jb = { sd, S, ns, ob, hsd, H, nh, (int)vr_below(&r, 2), NULL };
-    { static const int rs[] = { 0, 0, 1, 2, 254, 255, 256, 257, 511, 512, 1000, 65535, 65536 }; jb.reseeds = rs[vr_below(&r, 13)]; if (jb.reseeds >= 255) VR_CNT("histories_followed_by_255_or_more_seedings"); }
+    { static const int rs[] = { 0, 0, 1, 2, 254, 255, 256, 257, 511, 512, 1000, 65535, 65536 }; jb.reseeds = (uint64_t)rs[vr_below(&r, 13)]; if (jb.reseeds >= 255) VR_CNT("histories_followed_by_255_or_more_seedings"); }
+    /* profile 3: a long-lived thread that is seeded 2^32 times (one case takes minutes): 2^32 - 1, 2^32 and 2^32 + 1 seedings after the history's
+     * last coin flip, the seeded program starting with coin flips */
+    if (profile == 3) { jb.reseeds = 0xFFFFFFFEull + idx % 3; S[0].f = F_FLIP; S[1].f = F_FLIP; VR_CNT("histories_followed_by_2_32_seedings"); }
     run_in_thread(&ja);
     run_in_thread(&jb);
     VR_CNT("pairs_fresh_vs_polluted");
@@ -261,6 +264,7 @@ void vr_case(uint64_t seed, uint64_t idx, int profile)
                      sd, k, fname[S[k].f], oa[k], ob[k], nh, tail);
         break;
     }
+    if (profile == 3) { vr_mark_nontrivial(); free(oa); free(ob); free(S); free(H); return; }
     /* also: the same thread, twice in a row (main thread of this child) */
     if (vr_nviol == 0) {
         struct job jc = { sd, S, ns, ob, hsd, H, nh / 2 + 1, 0, NULL };
